@@ -11,8 +11,8 @@ spec -> code: every vector is concretised (one harmless reference string set, se
 non-latin-1, control characters, CR LF, ...) and sent through the real WSGI callable; the observed class
 (raised?, status, content type, body kind, decoded image size, XML skeleton and exception code, where request text
 came back) must be one of the classes TLC printed, the element structure must equal the reference's, and the strict
-checks on the observation itself (header syntax, image decodes as declared, XML well-formed, no unescaped request text,
-no traceback / server path) must hold.  The counterexamples TLC finds for the one-defect variants are replayed on the
+checks on the observation itself (header syntax, image decodes as declared, a body that is an image is declared with an
+image media type, XML well-formed, no unescaped request text, no traceback / server path) must hold.  The counterexamples TLC finds for the one-defect variants are replayed on the
 real application: a reproduced counterexample is a violation.
 
 code -> spec: random vectors with many parameters off the baseline are executed, recorded and validated by TLC
@@ -33,7 +33,7 @@ SPEC = os.path.join(tlc.SPEC_DIR, 'Dispatch.tla')
 TRACE_SPEC = os.path.join(tlc.SPEC_DIR, 'trace', 'Trace_Dispatch.tla')
 INVARIANTS = ['TypeOK', 'AlwaysResponds', 'MarkupFixed', 'NoLeak', 'ImageOK', 'NoStuck']
 ACTIONS = ['WsgiApp', 'OwsDispatch', 'Parse', 'Validate', 'Handle', 'RenderError', 'CatchAll', 'Send']
-AS_FOUND = ('raw_host', 'raw_header', 'xml_ctrl', 'legend_png')      # deviations of the code as found from the repaired model
+AS_FOUND = ('raw_host', 'raw_header', 'xml_ctrl', 'legend_png', 'bare_ct')   # deviations of the code as found from the repaired model
 HYPOTHETICAL = ('no_escape', 'no_catch_all')           # the invariants must be able to fail
 TLC_WORKERS = 4
 
@@ -84,7 +84,10 @@ def bad_flags(o, ref):
     img = [x for x in o['problems'] if x.startswith('declared ')]
     if img:
         bad.add('image')
-    if o['raised'] == 'yes' or [x for x in o['problems'] if x not in hdr and x not in img]:
+    cty = [x for x in o['problems'] if x.startswith('Content-type ') and 'is not an image media type' in x]
+    if cty:
+        bad.add('ctype')
+    if o['raised'] == 'yes' or [x for x in o['problems'] if x not in hdr and x not in img and x not in cty]:
         bad.add('response')
     if o['leak']:
         bad.add('leak')
@@ -140,6 +143,8 @@ def signature(op, p, c):
         return {'invariant': 'NoLeak', 'what': 'traceback-or-server-path', 'service': svc}
     if 'image' in bad:
         return {'invariant': 'ImageOK', 'what': 'image-bytes-are-not-of-the-declared-type', 'service': svc}
+    if 'ctype' in bad:
+        return {'invariant': 'ImageOK', 'what': 'declared-content-type-of-image-is-not-a-media-type', 'service': svc}
     if 'markup' in bad:
         return {'invariant': 'MarkupFixed', 'what': 'structure-depends-on-request-text', 'via': via}
     if 'xml' in bad:
@@ -186,6 +191,7 @@ class Checker(object):
         logging.disable(logging.CRITICAL)      # the catch-all logs every internal error with its traceback
         self.world = W.World(self.dir)
         self.nreq = 0
+        self.bare = {'error-image': 0, 'map-1.0.0': 0}     # vacuity guard: bare FORMAT names reached both paths
 
     def close(self):
         logging.disable(logging.NOTSET)
@@ -206,6 +212,11 @@ class Checker(object):
             if record is not None:
                 record.append({'op': op, 'p': p, 'obs': c})
             ctx.count(('vec', pkey(op, p), c['st'], c['ct'], c['skel'], c['code'], tuple(c['bad'])))
+            if str(p.get('format', '')).startswith('bare_') and c['kind'] == 'image' and c['st'] == 200:
+                if p.get('exceptions') in ('inimage', 'blank') and p.get('bbox') == 'inverted':
+                    self.bare['error-image'] += 1      # WMSImageExceptionHandler with FORMAT as sent
+                elif p.get('version') == 'v100' and p.get('exceptions') == 'absent':
+                    self.bare['map-1.0.0'] += 1        # WMS100MapRequest.validate_format accepted the name
             ok = allowed is None or any(matches(c, r) for r in allowed)
             if ok and not c['bad']:
                 continue
@@ -231,7 +242,7 @@ def tla_py(v):
 
 ATTACKS = {   # defect variant -> (operations, MaxDev) where TLC finds its counterexample
     'raw_host': (['wms_caps', 'tms_caps', 'rest_caps'], 1), 'raw_header': (['wms_mapx'], 1), 'xml_ctrl': (['wms_map', 'tms_tile'], 1),
-    'legend_png': (['wms_legend'], 1), 'no_escape': (['wms_map', 'wmts_tile'], 1), 'no_catch_all': (['wms_map'], 1)}
+    'legend_png': (['wms_legend'], 1), 'bare_ct': (['wms_mapx'], 1), 'no_escape': (['wms_map', 'wmts_tile'], 1), 'no_catch_all': (['wms_map'], 1)}
 
 
 def attack_model(ctx, defect):
@@ -440,6 +451,8 @@ def run(ctx):
             ctx.cov['replayed_behaviours'] += 1
             ctx.cov['replayed_steps'] += 3 if thorough else 2
         ctx.log('replayed %d vectors (MaxDev=2), %d requests so far  [%.0fs]' % (len(keys2), chk.nreq, time.time() - t1))
+        if not all(chk.bare.values()):
+            raise tlc.MachineryError('bare FORMAT names did not reach the image exception handler / the 1.0.0 map: %r' % chk.bare)
         some = sorted(table.items())[len(table) // 3]
         ctx.sample({'kind': 'vector enumerated by TLC with the response classes of the spec', 'op': some[1][0],
                     'params': {k: v for k, v in some[1][1].items() if v != 'absent'}, 'allowed': [tla_py(r) for r in some[1][2]][:2]})
